@@ -116,7 +116,14 @@ def case(spec):
         if kind in ('single', 'inter'):
             variant = rng.choice(['acorn', 'acorn', 'watford', 'opus'])
             spt = 18 if variant == 'opus' else rng.choice([10, 18])
-            s0 = dm.gen_surface(rng, variant=variant, spt=spt, sid=0, maxlen_sectors=30)
+            if kind == 'inter' and variant != 'opus' and idx % 4 == 3:
+                spt = 16          # a two-sided interleaved image identifies its 16 sectors per track by the second catalogue
+            if spt == 16:
+                tr16 = rng.choice([35, 40, 80])
+                tot16 = {35: rng.randint(40, 560), 40: rng.randint(561, 640), 80: rng.randint(641, 1023)}[tr16]
+                s0 = dm.gen_surface(rng, variant=variant, spt=16, total=tot16, tracks=tr16, sid=0, maxlen_sectors=30)
+            else:
+                s0 = dm.gen_surface(rng, variant=variant, spt=spt, sid=0, maxlen_sectors=30)
             surfaces = [s0]
             if kind == 'inter':
                 if variant == 'opus':
@@ -124,6 +131,20 @@ def case(spec):
                 else:
                     s1 = dm.gen_surface(rng, variant=rng.choice(['acorn', 'watford']), spt=spt,
                                         total=min(1023, s0.tracks * spt), tracks=s0.tracks, sid=1, maxlen_sectors=30)
+                if spt == 16:
+                    # the prober tells 16 from 18 sectors per track by where it finds the second side's catalogue: a
+                    # 16-spt image whose side-1 sectors 2-3 look like a catalogue (a Watford second fragment, or a file
+                    # body that happens to) is inherently ambiguous, so it is not generated
+                    if s1.variant == 'watford':
+                        s1 = dm.gen_surface(rng, variant='acorn', spt=spt, total=min(1023, s0.tracks * spt), tracks=s0.tracks,
+                                            sid=1, maxlen_sectors=30)
+                    for e in s1.volumes[0].cat.all_entries():
+                        if e.length and e.start <= 3 < e.start + e.nsectors:
+                            off = 3 * 256 + 5 - e.start * 256
+                            if off < len(e.body):
+                                b_ = bytearray(e.body)
+                                b_[off] |= 1
+                                e.body = bytes(b_)
                 surfaces.append(s1)
                 raw = dm.dsd_image(s0, s1)
                 drives = [0, 2]
@@ -297,6 +318,19 @@ def case(spec):
                                       ['info', ':%d.#.*' % k], ['dump-sector', str(k), '0', '2']])
                     must_fail(res, dfsbin, path, pre, cmd, 'mmb-unformatted-slot', files)
                     res.sigs.append('mmb-unformatted|%d|%02x|%s' % (k, st, cmd[0]))
+            # show-titles without arguments walks every drive: the title of every formatted slot must appear
+            r_ = dfs(dfsbin, path, ['show-titles'], pre=pre, timeout=120)
+            res.execs += 1
+            if not screen(res, r_, PROP, 'show-titles', files):
+                res.events += 1
+                for k, (st, s) in sorted(surf.items()):
+                    if st in (0x00, 0x0F):
+                        line = ('%d: %s\n' % (k, s.volumes[0].cat.title_str())).encode('latin1')
+                        if line not in r_.out:
+                            res.violation('mmb-formatted-slot-not-listed', 'show-titles does not list formatted slot %d '
+                                          '(an unformatted slot precedes it: %s)' % (k, any(surf[j][0] not in (0, 15) for j in surf if j < k)),
+                                          {'run': r_.brief(), 'slots': {j: '%02X' % surf[j][0] for j in surf}}, files, r_.argv)
+                            break
             # a slot that is not in the table at all (status 0xFF, no data)
             free = [k for k in range(511) if k not in slots]
             k = rng.choice(free)
